@@ -85,10 +85,22 @@ def lean_stage(mod, tier, log):
         except Exception:  # noqa: BLE001
             res["report"] = {}
         # driver first (needed by the correspondence even when the proofs break)
-        rc_d, out_d = sh(["lake", "build", "drv"], cwd=LEAN_DIR)
-        res["driver_ok"] = rc_d == 0
-        if rc_d != 0:
-            res["driver_messages"] = out_d[-3000:]
+        # only the drivers this property's correspondence uses (drv: generated code; drvm: hand models on generated code;
+        # drvp: hand models independent of generated code), so that an unrelated module cannot break it
+        drivers = list(getattr(mod, "DRIVERS", ["drv"] if getattr(mod, "ENTRIES", None) else []))
+        if getattr(mod, "correspond_extra", None) and "drvp" not in drivers:
+            drivers.append("drvp")
+        res["driver_ok"] = True
+        for drvname in drivers:
+            # a stale binary must not be used when the build fails
+            rc_d, out_d = sh(["lake", "build", drvname], cwd=LEAN_DIR)
+            if rc_d != 0:
+                res["driver_ok"] = False
+                res["driver_messages"] = out_d[-3000:]
+                try:
+                    os.remove(os.path.join(LEAN_DIR, ".lake", "build", "bin", drvname))
+                except OSError:
+                    pass
         names, path = theorem_names(mod.LEAN)
         extra_mods = list(getattr(mod, "LEAN_EXTRA", []))
         for em in extra_mods:
